@@ -528,3 +528,14 @@ def simplex_best_vertex_is_published_constrained(ctx):
     ctx.check(bad is None, 'NelderMeadSimplexSolver._Step#best-vertex', '%s[0] = constraints(%s[0]) is the last change of the array before it is published (%d paths)' % (simv, simv, n_later),
               'the simplex is published with a row 0 that is not known to be its constrained image: the array is rebound / reordered after the last %s[0] = constraints(%s[0]) on path %s'
               % (simv, simv, bad.describe(6) if bad else ''), f, pubs[-1])
+
+
+@rule('C02.i', min_instances=1)
+def wrappers_hand_the_bounds_on_unchanged(ctx):
+    """the one-line interfaces split bounds=[(lo, hi), ...] with tools.unpair before SetStrictRanges: unpair transposes and returns plain lists WITHOUT a numeric cast, so an open side written as None reaches SetStrictRanges as None (and gets its default) - cast to float it becomes nan, which passes the min > max check and the gate, and the cost is called with nan coordinates"""
+    f = ctx.func('mystic.tools:unpair')
+    ref = 'def unpair(pairs):\n    from numpy import asarray\n    pairsT = asarray(pairs).transpose()\n    return [i.tolist() for i in pairsT]\n'
+    from .. import siblings as SB
+    got, want = SB.agree(f.node, ref, strict_casts=True)
+    ctx.stats['terms_compared'] += len(got)
+    ctx.check(got == want, 'tools.unpair', 'asarray(pairs).transpose() -> lists, no dtype', 'unpair differs from its confirmed behaviour: %s' % SB.diff(got, want)[:300], f, f.node)
